@@ -196,7 +196,7 @@ def md_lines(key, a, seps):
     elif t == "one":
         vals = [a[1]]
     elif t == "dict":
-        vals = [f"{k} {seps.get(key, '=')} {v}" for k, v in a[1]]
+        vals = [f"{k}{seps.get(key, '=')}{v}" for k, v in a[1]]
     else:
         vals = [" ".join(x for x in (e, c, l) if x is not None) for e, c, l in a[1]]
     if not vals:
